@@ -126,9 +126,16 @@ func suiteUpsel(r *rng, n int) {
 		rrCount := 0
 		flags := func() string {
 			var fs []string
-			for _, u := range servers {
+			list := us.HTTPUpstream.GetUpstreamList()
+			for j, u := range servers {
 				f := "s"
-				if u.up {
+				healthy := u.up
+				if optFlag != "settle" && j < len(list) {
+					// "currently passes its health check" is the pool's own status: the periodic checker runs in the
+					// background also here and may have re-classified a server (slow connect on a busy machine)
+					healthy = list[j].Status() == 2
+				}
+				if healthy {
 					f = "h"
 				}
 				if u.backup {
@@ -281,6 +288,7 @@ func upselPipelineHistories() {
 		p := newPipeline(100, "1s", false, serverOption(), nil, ucfg)
 		upstream.Reset(nil)
 		upstream.Reset(ucfg)
+		waitUpstreamHealthy("u1")
 		for k := 0; k < 12; k++ {
 			p.do("GET", "x.test", fmt.Sprintf("/rr/%d-%d", ns, k), nil, nil)
 		}
